@@ -2,6 +2,7 @@ package middleware
 
 import (
 	"github.com/ThreeDotsLabs/watermill/message"
+	"github.com/ThreeDotsLabs/watermill/verifhook"
 	multierror "github.com/hashicorp/go-multierror"
 	"github.com/pkg/errors"
 )
@@ -35,6 +36,7 @@ func PoisonQueue(pub message.Publisher, topic string) (message.HandlerMiddleware
 		topic: topic,
 		pub:   pub,
 		shouldGoToPoisonQueue: func(err error) bool {
+			verifhook.At("poison.default_filter")
 			return true
 		},
 	}
